@@ -666,7 +666,7 @@ func (a *CBOAnalyzer) walkNode(node *parser.Node, visitor func(*parser.Node) boo
 	}
 
 	for _, children := range [][]*parser.Node{
-		node.Children, node.Decorator, node.Args, node.Keywords,
+		node.Children, node.Decorator, node.Bases, node.Args, node.Keywords,
 		node.Body, node.Handlers, node.Orelse, node.Finalbody,
 	} {
 		for _, child := range children {
